@@ -86,3 +86,67 @@ func ZZ_C12_History() {
 	}
 	zzReach("C12.history.done")
 }
+
+
+// Histories of removals on a longer chain (the cleaner removes several snapshots in
+// one process): K operations from {RemoveDiffDisk, PrepareRemoveDisk, Snapshot, Revert}
+// with names drawn from the chain itself.
+func ZZ_C12_RemovalHistory() {
+	k := zzParam("K", 2)
+	n := zzParam("SNAPS", 4)
+	fs := zzInstallFS()
+	r, err := zzOpenReplica()
+	zzAssume(err == nil)
+	r.mode = types.RW
+	names := []string{"s0", "s1", "s2", "s3", "s4", "s5"}
+	for i := 0; i < n; i++ {
+		zzAssume(r.Snapshot(names[i], zzNondetBool("user"), "t") == nil)
+	}
+	zzWellFormed("C12.removal.initial", r)
+	for step := 0; step < k; step++ {
+		ch, _ := r.Chain()
+		name := ch[zzConcretize(zzChoice("victim", len(ch)))]
+		before := zzMemDigest(r)
+		op := zzConcretize(zzChoice("op", 4))
+		var oerr error
+		opname := ""
+		switch op {
+		case 0:
+			opname = "RemoveDiffDisk"
+			oerr = r.RemoveDiffDisk(name)
+		case 1:
+			opname = "PrepareRemoveDisk"
+			_, oerr = r.PrepareRemoveDisk(name)
+		case 2:
+			opname = "Snapshot"
+			oerr = r.Snapshot("n"+names[step], zzNondetBool("user"), "t")
+		default:
+			opname = "Revert"
+			rn, e := r.Revert(name, "t")
+			oerr = e
+			if e == nil && rn != nil {
+				rn.mode = types.RW
+				r = rn
+			}
+		}
+		after := zzMemDigest(r)
+		zzWellFormed("C12.removal.after-"+opname, r)
+		if oerr != nil {
+			zzReach("C12.removal.refused")
+			zzAssert(zzSameAttrs(before, after), "C12.removal.refused-"+opname+"-changed-the-chain")
+		} else {
+			zzReach("C12.removal.accepted")
+		}
+		// the directory agrees with the live replica (reopen in a fresh process, the live
+		// replica keeps running: the next operation uses the same in-memory state)
+		saved := *fs
+		fs.Revive()
+		rr, rerr := zzOpenReplica()
+		zzAssert(rerr == nil && rr != nil, "C12.removal.reopen-failed-after-"+opname)
+		if rr != nil {
+			zzAssert(zzSameAttrs(zzMemDigest(rr), after), "C12.removal.reopen-sees-different-chain-after-"+opname)
+		}
+		_ = saved
+	}
+	zzReach("C12.removal.done")
+}
